@@ -29,13 +29,29 @@ def make_case(rng):
             args.append({"Float": rng.choice(["Float", "Int"]), "A": rng.choice(["A", "B"]), "Int?": rng.choice(["Int?", "Int", "None"])}.get(p, p))
         else:
             args.append(rng.choice(ARG_TYPES))
-    return params, defaults, args, rng.choice(POSITIONS)
+    # how each argument value reaches the call: literal/constructor expression, inferred local, annotated local, function result
+    carriers = [rng.choice(["lit", "lit", "local", "annlocal", "result"]) if a not in ("None", "Int?") else "lit" for a in args]
+    return params, defaults, args, rng.choice(POSITIONS), carriers
 
 
-def program(params, defaults, args, position):
+def program(params, defaults, args, position, carriers=None):
     sig = ", ".join("p%d: %s%s" % (i, TY[p][2], " := " + default_of(p) if d else "") for i, (p, d) in enumerate(zip(params, defaults)))
-    argtxt = ", ".join(TY[a][1] for a in args)
+    carriers = carriers or ["lit"] * len(args)
     pre = CLASS_SRC + "def optint: Int? := None\n"
+    names = []
+    for i, (a, c) in enumerate(zip(args, carriers)):
+        if c == "lit":
+            names.append(TY[a][1])
+        elif c == "local":
+            pre += "def a%d := %s\n" % (i, TY[a][1])
+            names.append("a%d" % i)
+        elif c == "annlocal":
+            pre += "def a%d: %s := %s\n" % (i, TY[a][2], TY[a][1])
+            names.append("a%d" % i)
+        else:
+            pre += "def mk%d() -> %s => %s\n" % (i, TY[a][2], TY[a][1])
+            names.append("mk%d()" % i)
+    argtxt = ", ".join(names)
     if position == "constructor":
         cargs = ", ".join("def p%d: %s%s" % (i, TY[p][2], " := " + default_of(p) if d else "") for i, (p, d) in enumerate(zip(params, defaults)))
         return pre + "class K%s\n    def z: Int := 0\ndef r := K(%s)\n" % ("(" + cargs + ")" if params else "", argtxt)
@@ -80,7 +96,15 @@ def run(chk):
     if not ok:
         return
     rng = chk.rng
-    cases = [make_case(rng) for _ in range(1500 if thorough else 260)]
+    cases = [make_case(rng) for _ in range(1500 if thorough else 200)]
+    # systematic single-parameter grid: (parameter type, argument type) x carrier x position
+    pairs = [(p, a) for p in PARAM_TYPES for a in ARG_TYPES] if thorough else [("Int", "Str"), ("Int", "Int"), ("Str", "Int"), ("A", "X"), ("A", "B"), ("Float", "Int"), ("Int", "Float"), ("B", "A"), ("Int", "Int?"), ("Int?", "None")]
+    for p, a in pairs:
+        for carrier in ("lit", "local", "annlocal", "result"):
+            if a in ("None", "Int?") and carrier != "lit":
+                continue
+            for pos in POSITIONS:
+                cases.append(([p], [False], [a], pos, [carrier]))
     texts = [program(*c) for c in cases]
     res = sweep.transpile(chk, texts, annotate_both=False)
     have_model = chk.proof_broken is None or chk.proof_broken[0] not in ("proof-build",)
@@ -88,7 +112,7 @@ def run(chk):
     if have_model:
         cl = chk.harness("tyclasses", [("c", hexs(CLASS_SRC))]).get("c", "")
         reqs = []
-        for i, (params, defaults, args, _) in enumerate(cases):
+        for i, (params, defaults, args, _, _) in enumerate(cases):
             ps = " ".join("(%s %d)" % (sexp(TY[p][0]), 1 if d else 0) for p, d in zip(params, defaults))
             as_ = " ".join(sexp(TY[a][0]) for a in args)
             reqs.append(("k%d" % i, "(%s) | %s | %s" % (cl[3:], ps, as_)))
@@ -104,11 +128,11 @@ def run(chk):
             stats[ic] = stats.get(ic, 0) + 1
             continue
         f = chk.known(text) or chk.known("%s/%s/%s" % (c[0], c[2], c[3]))
-        why = "call %s(%s) at position %s: the checker says %s, the signature says %s" % (c[0], c[2], c[3], ic, mc)
+        why = "call %s(%s) at position %s with carriers %s: the checker says %s, the signature says %s" % (c[0], c[2], c[3], c[4], ic, mc)
         if f:
             chk.report_known(f, why)
         elif len(chk.violations) < 6:
-            chk.violation("input", why, case={"kind": "prog", "text": text, "params": c[0], "defaults": c[1], "args": c[2], "position": c[3]},
+            chk.violation("input", why, case={"kind": "prog", "text": text, "params": c[0], "defaults": c[1], "args": c[2], "position": c[3], "carriers": c[4]},
                           expected=mc, actual=(r[0][1][0][:600] if r[0][0] == "err" else ic))
     chk.sample({"case": str(cases[0]), "text": texts[0][-200:], "impl": impl_class(res[0][0]), "model": mod.get("k0") if mod else None})
     # positive half on whole programs: well-typed generated programs must be accepted (inference failures are a recorded finding)
@@ -129,4 +153,4 @@ def run(chk):
                          "calls": len(cases), "by_position": by_pos, "generated_programs": len(progs), "over_rejected": over}
     chk.cov["evaluations"] = len(cases) + len(progs)
     chk.cov["distinct_nontrivial"] = len(set(texts))
-    chk.cov["rule"] = "distinct (signature, argument list, position) programs: 0-3 parameters over Int/Float/Str/Bool/classes/Int? with trailing defaults; arguments conforming or with one fault (type, missing, extra); positions top/function/method/constructor/nested/branch/loop"
+    chk.cov["rule"] = "distinct (signature, argument list, position) programs: 0-3 parameters over Int/Float/Str/Bool/classes/Int? with trailing defaults; arguments conforming or with one fault (type, missing, extra); positions top/function/method/constructor/nested/branch/loop; each argument passed as a literal, an inferred local, an annotated local or a function result"
